@@ -122,15 +122,15 @@ func MustGrammar(text string, maxN int) *Grammar {
 			}
 			p.tmpl = t
 			t.Walk(func(n *irjs.Node) bool {
-				if n.Atom {
-					if c, ok := g.nts[n.Op]; ok {
-						p.slots = append(p.slots, c)
-					}
+				// an atom naming a nonterminal is a slot; so is the head of a compound node (operator slot,
+				// filled by an atom-producing nonterminal)
+				if c, ok := g.nts[n.Op]; ok {
+					p.slots = append(p.slots, c)
 				}
 				return true
 			})
-			if p.cost == 0 && (len(p.slots) != 1 || !t.Atom) {
-				panic("c02 grammar: zero-cost alternative must be a single slot: " + alt)
+			if p.cost == 0 && len(p.slots) == 0 {
+				panic("c02 grammar: zero-cost alternative needs a slot: " + alt)
 			}
 			nt.prods = append(nt.prods, p)
 		}
@@ -271,6 +271,14 @@ func (g *Grammar) instantiate(t *irjs.Node, kids []*irjs.Node, k *int) *irjs.Nod
 		return t // atoms are immutable and may be shared
 	}
 	n := &irjs.Node{Op: t.Op}
+	if _, ok := g.nts[t.Op]; ok {
+		h := kids[*k]
+		*k++
+		if !h.Atom {
+			panic("c02 grammar: operator slot " + t.Op + " filled by a compound node")
+		}
+		n.Op = h.Op
+	}
 	for _, c := range t.Kids {
 		x := g.instantiate(c, kids, k)
 		if x.Is("@") {
